@@ -1,5 +1,6 @@
 use crate::fw::Ctx;
 
+pub mod c03;
 pub mod c07;
 pub mod c12;
 pub mod c17;
@@ -14,6 +15,7 @@ pub struct Prop {
 }
 
 pub const PROPS: &[Prop] = &[
+    Prop { id: "C03", run: c03::run, replay: c03::replay },
     Prop { id: "C07", run: c07::run, replay: c07::replay },
     Prop { id: "C12", run: c12::run, replay: c12::replay },
     Prop { id: "C17", run: c17::run, replay: c17::replay },
@@ -57,6 +59,30 @@ pub fn explore(args: &[String]) {
                 }
             }
             println!("corpus {} programs; worst ticks/byte = {:.2} (len {}, ticks {})", corpus.len(), worst.0, worst.1, worst.2);
+        }
+        Some("sim") => {
+            // qv explore sim <file> [workers] [quantum]
+            let src = std::fs::read_to_string(&args[1]).expect("read");
+            let workers: usize = args.get(2).and_then(|s| s.parse().ok()).unwrap_or(2);
+            let quantum: usize = args.get(3).and_then(|s| s.parse().ok()).unwrap_or(1000);
+            let reg = crate::qrun::registry();
+            for prog in src.split("\n====\n") {
+                let c = match crate::qrun::compile(prog, &crate::qrun::Modules::new(), &reg) {
+                    Ok(c) => c,
+                    Err(e) => {
+                        println!("COMPILE FAIL: {e:?}\n{prog}\n");
+                        continue;
+                    }
+                };
+                let bc = c.program.to_bytecode(c.entry);
+                let cfg = crate::sim::SimCfg { workers, quanta: vec![quantum], schedule: vec![], max_moves: 200_000 };
+                let r = crate::sim::run_program(&bc, cfg, &reg, None, |_, _| Ok(()));
+                println!("{}\n  => end={:?} result={} moves={} clock={}", prog.trim(), r.end, r.result.as_ref().map(|x| match x { Ok(v) => v.to_string(), Err(e) => format!("ERR {e:?}") }).unwrap_or("<none>".into()), r.moves, r.clock);
+                for (pid, pr) in &r.processes {
+                    println!("     pid {pid}: {}", pr.as_ref().map(|x| match x { Ok(v) => v.to_string(), Err(e) => format!("ERR {e:?}") }).unwrap_or("<running>".into()));
+                }
+                println!();
+            }
         }
         Some("corpus") => {
             let sessions = crate::corpus::harvest_tests();
